@@ -17,6 +17,7 @@ func (p *parser) parseInst(fn *ast.Func) (inst *ast.Instruction) {
 	case abi.X64Unix, abi.X64Windows:
 		return p.parseInst_x64(fn)
 	default:
-		panic("unreachable")
+		p.errorf(p.pos, "unsupported cpu: %v", p.cpu)
+		return nil
 	}
 }
